@@ -81,3 +81,82 @@ fn fast_one_iteration<const FEATURES: usize>() {
 fn ki6_fast_loop_room() {
     fast_one_iteration::<{ crate::cpu_features::CpuFeatures::NONE }>();
 }
+
+
+// ---------------------------------------------------------------------------------------------------------------
+// which window bytes a match is served from when the window has wrapped (its write head `next` is anywhere): the ranges the
+// fast loop asks `extend_from_window` for must walk the ring in stream order — each starts where the previous one ended,
+// modulo the window size — whatever the output schedule of earlier calls left in `next` (C04).  Same single-iteration
+// set-up as above; the copy stub additionally records the ranges it is asked for.
+// ---------------------------------------------------------------------------------------------------------------
+static mut EFW_CALLS: usize = 0;
+static mut EFW_START: [usize; 4] = [0; 4];
+static mut EFW_LEN: [usize; 4] = [0; 4];
+
+pub(crate) fn stub_efw_recording<'a, const FEATURES: usize>(w: &mut Writer<'a>, window: &Window<'_>, range: core::ops::Range<usize>)
+where
+    'a: 'a,
+{
+    assert!(range.start <= range.end && range.end <= window.size(), "extend_from_window: range outside the window");
+    let len = range.end - range.start;
+    assert!(len <= w.remaining(), "extend_from_window: length exceeds the room left in the output buffer");
+    unsafe {
+        if EFW_CALLS < 4 {
+            EFW_START[EFW_CALLS] = range.start;
+            EFW_LEN[EFW_CALLS] = len;
+        }
+        EFW_CALLS += 1;
+    }
+    let filled = w.len();
+    let cap = w.capacity();
+    let base = w.next_out().wrapping_sub(filled);
+    *w = unsafe { Writer::new_uninit_raw(base as *mut u8, filled + len, cap) };
+}
+
+#[kani::proof]
+#[kani::unwind(10)] // mem::swap of the reader/writer structs is a chunked byte-swap loop
+#[kani::stub(crate::inflate::inftrees::inflate_table, stub_table_unreachable)]
+#[kani::stub(core::fmt::write, stub_fmt_write)]
+#[kani::stub(core::panicking::panic_nounwind, stub_pn)]
+#[kani::stub(core::panicking::panic_nounwind_fmt, stub_pnf)]
+#[kani::stub(crate::inflate::writer::Writer::copy_match_with_features, stub_copy_match_contract)]
+#[kani::stub(crate::inflate::writer::Writer::extend_from_window_with_features, stub_efw_recording)]
+fn ki6_fast_loop_walks_the_window_ring() {
+    const W: usize = 8;
+    const BUF: usize = 4 + 262 + 8;
+    let mut out = [0xEEu8; BUF];
+    let input: [u8; 15] = kani::any();
+    let mut win = [0u8; W + 64];
+    let mut state = typed_state(&mut win, 0, Mode::Len);
+    state.len_table = Table { codes: Codes::Fixed, bits: 9 };
+    state.dist_table = Table { codes: Codes::Fixed, bits: 5 };
+    // a window that has wrapped: full, write head anywhere
+    let next: usize = kani::any();
+    kani::assume(next < W);
+    crate::inflate::window::verif_kani::set_ring(&mut state.window, W, next);
+    unsafe { state.bit_reader.update_slice(input.as_ptr(), 15) };
+    state.writer = unsafe { Writer::new_uninit_raw(out.as_mut_ptr().add(4), 0, 262) };
+    unsafe {
+        EFW_CALLS = 0;
+    }
+    unsafe { inflate_fast_help_impl::<{ crate::cpu_features::CpuFeatures::NONE }>(&mut state, 0) };
+    let calls = unsafe { EFW_CALLS };
+    // (native: nothing is recorded, the ranges are what the real copies were given; these two hold either way)
+    assert!(state.writer.len() <= 262);
+    assert!(matches!(state.mode, Mode::Len | Mode::Type | Mode::Bad));
+    assert!(calls <= 2, "one match per iteration: at most the end of the ring and then its start");
+    if calls == 2 {
+        let (s0, l0, s1) = unsafe { (EFW_START[0], EFW_LEN[0], EFW_START[1]) };
+        assert!(s0 + l0 == W && s1 == 0, "a match that crosses the end of the window buffer continues at its start");
+        assert!(l0 >= 1 && s0 >= next, "the part before the wrap point is the older data, behind the write head");
+    }
+    if calls >= 1 {
+        let (s0, l0) = unsafe { (EFW_START[0], EFW_LEN[0]) };
+        // the oldest byte in a full ring sits at `next`: a source range never starts inside the newer part and runs across
+        // the write head into the older part
+        assert!(!(s0 < next && s0 + l0 > next), "a source range does not cross the write head");
+    }
+    kani::cover!(calls == 2);
+    kani::cover!(calls == 1);
+    core::mem::forget(state);
+}
